@@ -337,6 +337,8 @@ pub trait Tgt<'gc>: 'gc {
     const TAG: &'static str;
     const PNAME: &'static str;
     fn has_child(e: &Exp) -> bool;
+    /// number of original value tokens (struct: 1, element / byte: 1 each, zero-sized: 0)
+    fn tokens(e: &Exp) -> usize;
     /// destructor-log entries with `TAG` one destruction of the value produces
     fn drops_per_value(e: &Exp) -> usize;
 
@@ -380,6 +382,10 @@ macro_rules! sized_tgt {
             const PNAME: &'static str = "unit";
             fn has_child(_e: &Exp) -> bool {
                 $child
+            }
+            fn tokens(e: &Exp) -> usize {
+                // structs with a payload: 1; arrays: one per element; zero-sized types: 0
+                if std::mem::size_of::<$T>() == 0 { 0 } else if $tag == "Elem" { e.n } else { 1 }
             }
             fn drops_per_value(e: &Exp) -> usize {
                 let f: fn(&Exp) -> usize = $drops;
@@ -577,6 +583,9 @@ impl<'gc> Tgt<'gc> for [Elem<'gc>] {
     fn has_child(e: &Exp) -> bool {
         e.n > 0
     }
+    fn tokens(e: &Exp) -> usize {
+        e.n
+    }
     fn drops_per_value(e: &Exp) -> usize {
         e.n
     }
@@ -661,6 +670,9 @@ impl<'gc> Tgt<'gc> for Swh<'gc> {
     fn has_child(e: &Exp) -> bool {
         e.n > 0
     }
+    fn tokens(e: &Exp) -> usize {
+        e.n
+    }
     fn drops_per_value(e: &Exp) -> usize {
         e.n
     }
@@ -727,6 +739,9 @@ impl<'gc> Tgt<'gc> for str {
     const PNAME: &'static str = "str";
     fn has_child(_e: &Exp) -> bool {
         false
+    }
+    fn tokens(e: &Exp) -> usize {
+        e.n
     }
     fn drops_per_value(_e: &Exp) -> usize {
         0
